@@ -31,6 +31,7 @@ func tcpCounters(fd int) (sent, recvd, notsent uint64, ok bool) {
 // (or cannot be sent because the receiver's window is closed). On loopback this is normally
 // already true when write() returns; the loop covers deferred softirq processing.
 func delivered(sendFd, recvFd int, deadline time.Time) bool {
+	t0 := time.Now()
 	for {
 		s, _, ns, ok1 := tcpCounters(sendFd)
 		_, r, _, ok2 := tcpCounters(recvFd)
@@ -40,8 +41,11 @@ func delivered(sendFd, recvFd int, deadline time.Time) bool {
 		if r >= s && ns == 0 {
 			return true
 		}
-		if ns > 0 && r >= s {
-			return true // window closed: nothing more will arrive until the receiver reads
+		// ns > 0: the kernel still holds written bytes back (congestion window waiting for a delayed
+		// ACK, or the receiver's window is closed because it does not read). The first resolves
+		// itself within the delayed-ACK timer (40 ms); give it 120 ms, then assume flow control.
+		if ns > 0 && r >= s && time.Since(t0) > 120*time.Millisecond {
+			return true
 		}
 		if time.Now().After(deadline) {
 			return false
